@@ -88,6 +88,10 @@ def py_to_val(v):
 def ref_tokens(oid, formats):
     """The persistent ids written for one referenced oid.  With formats on, some oids are referenced in several
     of the formats ZODB.serialize documents (strong with class, weak, bare oid) inside the same state."""
+    if formats == 'bareonly':
+        # some objects are referenced by their bare oid ONLY (what ZODB writes for targets whose class has
+        # __getnewargs__ and for persistent classes): the pack GC must follow those references too
+        return ['bare'] if oid % 3 == 2 else ['strong']
     out = ['strong']
     if formats:
         if oid % 2 == 1:
@@ -235,7 +239,7 @@ def datum_of(data):
     if read_record.tag_error is not None:
         d['shared_object_lost'] = read_record.tag_error
     if FORMATS:
-        want = sorted((o, t) for o in refs for t in ref_tokens(o, True))
+        want = sorted((o, t) for o in refs for t in ref_tokens(o, FORMATS))
         if read_record.tokens != want:
             d['reference_formats'] = tuple(read_record.tokens)     # shows up as a divergence
     return d
